@@ -71,6 +71,7 @@ type Config struct {
 	RolloutID bool      `json:"rolloutID,omitempty"`
 	Threshold string    `json:"threshold,omitempty"` // failureThreshold
 	NoCanarySvc bool    `json:"noCanarySvc,omitempty"`
+	Grace0    bool      `json:"grace0,omitempty"` // trafficRoutings[].gracePeriodSeconds = 0
 	TRRef     bool      `json:"trRef,omitempty"` // use a TrafficRouting CR instead of inline trafficRoutings
 	HPA       bool      `json:"hpa,omitempty"`   // a HorizontalPodAutoscaler targets the workload (blue-green disables / restores it)
 	Queue     bool      `json:"queue,omitempty"` // reconciles are enabled only when the controller's key is pending (real wake-ups)
@@ -124,6 +125,10 @@ type Ghost struct {
 	DisSup     bool   `json:"disSup"`     // the Rollout was disabled / deleted while a newer revision (or a rollback) than the one being released was pending, or vice versa
 	ReadySteps []int  `json:"readySteps"`
 	ReadyRev   string `json:"readyRev"`
+	// ReadyRepl: the largest number of new-revision pods a batch the BatchRelease reported Ready called for, under the
+	// rollout's current canary revision and the workload's current size (reset when either changes)
+	ReadyRepl    int    `json:"readyRepl"`
+	ReadyReplKey string `json:"readyReplKey"`
 }
 
 // WorkloadEnv is the simulated native controller of one workload kind/style.
@@ -417,6 +422,9 @@ func (w *World) trafficRefsInline() []v1beta1.TrafficRoutingRef {
 		return nil
 	}
 	ref := v1beta1.TrafficRoutingRef{Service: SvcName, GracePeriodSeconds: BigGrace}
+	if w.Cfg.Grace0 {
+		ref.GracePeriodSeconds = 0 // "no need to wait" after a traffic change
+	}
 	if cls := w.ingressClass(); cls != "" {
 		ct := cls
 		if ct == "alb" {
@@ -656,8 +664,32 @@ func (w *World) afterAction(base string) {
 		w.Ghost.ReadyRev = key
 		w.Ghost.ReadySteps = nil
 	}
+	R := 0
+	if wl := w.WL.Project(w); wl["exists"] == true {
+		R, _ = wl["R"].(int)
+	}
+	if rk := fmt.Sprintf("%s|%d", canaryRevisionOf(ro), R); rk != w.Ghost.ReadyReplKey {
+		w.Ghost.ReadyReplKey = rk
+		w.Ghost.ReadyRepl = 0
+	}
 	if w.S.Load(w.NS, RolloutName, br) {
 		w.Ghost.BrEver = true
+		if br.Status.CanaryStatus.CurrentBatchState == v1beta1.ReadyBatchState && br.Status.Phase == v1beta1.RolloutPhaseProgressing &&
+			br.Status.ObservedGeneration == br.Generation && RevOf(br.Status.UpdateRevision) == RevOf(canaryRevisionOf(ro)) {
+			if b := int(br.Status.CanaryStatus.CurrentBatch); b >= 0 && b < len(br.Spec.ReleasePlan.Batches) {
+				cr := br.Spec.ReleasePlan.Batches[b].CanaryReplicas
+				n, _ := intstr.GetScaledValueFromIntOrPercent(&cr, R, true)
+				if n > R {
+					n = R
+				}
+				if n < 0 {
+					n = 0
+				}
+				if n > w.Ghost.ReadyRepl {
+					w.Ghost.ReadyRepl = n
+				}
+			}
+		}
 		if br.Status.CanaryStatus.CurrentBatchState == v1beta1.ReadyBatchState && br.Status.Phase == v1beta1.RolloutPhaseProgressing &&
 			br.Status.ObservedGeneration == br.Generation && RevOf(br.Status.UpdateRevision) == RevOf(canaryRevisionOf(ro)) &&
 			w.projectBR(ro)["planOk"] == true {
@@ -784,6 +816,10 @@ func (w *World) userDo(a string) error {
 	case a == "user.release2":
 		w.Ghost.Rev = 2
 		return w.WL.Release(w, 2)
+	case a == "user.release3late": // a further release after the previous one has completed
+		w.Ghost.Rev = 3
+		w.Ghost.BrEver = false // "since the release started"
+		return w.WL.Release(w, 3)
 	case a == "user.release3":
 		w.Ghost.Rev = 3
 		if ro := w.getRollout(); ro != nil {
@@ -972,6 +1008,9 @@ func (w *World) userEnabled(a string, ro *v1beta1.Rollout) bool {
 	case a == "user.trdelete":
 		tr := &v1alpha1.TrafficRouting{}
 		return w.S.Load(w.NS, TRName, tr) && tr.DeletionTimestamp.IsZero()
+	case a == "user.release3late":
+		_, succ, _ := condReason(ro.Status.Conditions, v1beta1.RolloutConditionSucceeded)
+		return w.Ghost.Rev == 2 && ro.Status.Phase == v1beta1.RolloutPhaseHealthy && succ == "True" && !deleting
 	case a == "user.editidle": // the plan is edited while nothing is being released (validation allows any change then)
 		return ro.Status.Phase == v1beta1.RolloutPhaseHealthy && !deleting && len(w.Cfg.Steps2) > 0
 	case a == "user.deleteidle":
